@@ -163,8 +163,10 @@ def make_mqtt_for_lifecycle(fault: str) -> CountingMQTTClient:
 
 # ---------------------------------------------------------------------------
 
+META_LEVELS = ("gw(1)", "lab[2]", "what?", "a|b", "$mys", "^top", "c*", "back\\slash", "dot.", "{x}", "open(", "x)", "[", "a{2}", "%s", "~", "sp ace", "\\d", "(?i)x")  # legal topic names all
 _level = st.one_of(
     st.sampled_from(("mygateway1-out", "mygateway1-in", "mysensors", "test-out", "a", "3", "0", "gw 1", "é")),
+    st.sampled_from(META_LEVELS),
     st.text(st.characters(exclude_characters="+#/\x00", exclude_categories=("Cs",)), min_size=1, max_size=6),
 )
 prefixes = st.lists(_level, min_size=1, max_size=3).map("/".join)
@@ -226,6 +228,11 @@ def enumerate_cases(tier: str):
                    "ops": [["deliver", [node, 1, 1, 0, 2, "1"]], ["read"], ["reconnect"], ["deliver", [node, 255, 3, 1, 0, "7"]], ["echo", [node, 2, 1, 1, 47, "a;b/c"]], ["reconnect"], ["deliver", [node, 255, 4, 0, 1, ""]]]}
     for fault in ("connect", "subscribe"):
         yield {"in_prefix": "in", "out_prefix": "out", "connect_fault": fault, "ops": []}
+    # prefixes made of characters that mean something to regular expressions, format strings or shells
+    for level in META_LEVELS:
+        for in_prefix, out_prefix in ((level + "/out", level + "/in"), ("home/" + level, "home/" + level + "-in")):
+            yield {"in_prefix": in_prefix, "out_prefix": out_prefix, "connect_fault": "none",
+                   "ops": [["deliver", [1, 1, 1, 0, 2, "1"]], ["read"], ["echo", [12, 255, 3, 1, 9, "a;b"]], ["deliver", [255, 255, 3, 0, 3, ""]], ["reconnect"], ["deliver", [7, 255, 4, 0, 1, "ff"]], ["read"]]}
     # a burst is queued, the reader is cancelled after k loop iterations, the next reader gets everything that was not returned
     for k in range(0, 6):
         for n in (1, 2, 3):
@@ -264,7 +271,10 @@ def run_case(case: dict) -> Outcome:
         broker.fail_connect = case["connect_fault"] == "connect"
         broker.fail_subscribe = case["connect_fault"] == "subscribe"
         _patch(broker)
-        transport = MQTTClient("broker.invalid", 1883, in_prefix, out_prefix)
+        try:
+            transport = MQTTClient("broker.invalid", 1883, in_prefix, out_prefix)
+        except Exception as err:  # noqa: BLE001
+            return fail(f"construct-raises:{type(err).__name__}", f"MQTTClient with in-prefix {in_prefix!r} / out-prefix {out_prefix!r} (legal topic names) raised {err!r}")
         schema = MessageSchema()
         schema.set_protocol(get_protocol("2.2"))
         try:
